@@ -237,6 +237,48 @@ class Numeric:
             out.append((ba, bb, cb - ca - (1 if f[0] == "lt" else 0)))
         return out
 
+    def _range_item_bounds(self, v, block):
+        """v = the `Some` payload of `<Range<_> as Iterator>::next(&mut it)` with `it = (a..b).into_iter()`: a <= v < b, provided
+        nothing a or b was computed from is written between the creation of the iterator and the use"""
+        from .guards import value_kills
+        path = tuple(e for e in v[1][1] if e != "*")
+        if len(path) != 2 or path[0] != ("d", "Some") or path[1][0] != "f" or path[1][1] != 0:
+            return None
+        du = self.du
+        ds = du.defs.get(v[1][0], [])
+        if len(ds) != 1 or ds[0][0] != "call":
+            return None
+        t = ds[0][3]
+        from .callgraph import callee_name
+        cn = callee_name(t) or ""
+        if not cn.endswith("::next") or "std::ops::Range<" not in " ".join(t.get("arg_tys", []) + [cn]) or "RangeInclusive" in " ".join(t.get("arg_tys", [])):
+            return None
+        it = val_ref_target(du, du.val_operand(t["args"][0])) if t["args"] else None
+        if it is None:
+            return None
+        it = du.canon(it)
+        if it[1]:
+            return None
+        ids = du.defs.get(it[0], [])
+        if len(ids) != 1:
+            return None
+        rv = du.val_call(ids[0][3], 0, ids[0][1]) if ids[0][0] == "call" else du.val_rvalue(ids[0][3], 0, ids[0][1])
+        created = ids[0][1]
+        if rv[0] == "call" and rv[1] and rv[1].endswith("::into_iter") and rv[2]:
+            rv = rv[2][0]
+        if rv[0] != "aggregate" or rv[2] != "std::ops::Range" or len(rv[3]) != 2:
+            return None
+        start, end = rv[3]
+        cfg = self.g.cfg
+        for side in (start, end):
+            for kind, x in value_kills(side):
+                if kind != "place":
+                    continue
+                for kb, kidx, kk in self.g._killers(x):
+                    if kb in cfg.reachable_from(created) and block is not None and (kb == block or block in cfg.reachable_from(kb, removed_nodes=(created,))):
+                        return None
+        return self.lin(start), self.lin(end)
+
     def _monotone_bound(self, l, block):
         """local l with several definitions, each either a linear term over one common base (`kept.len()`, `n + 2`) or `l - c`, c >= 0
         (a counter that only shrinks): then l <= base + max offset wherever the base still has the value it had at those definitions"""
@@ -290,6 +332,13 @@ class Numeric:
                 if iv is not None:
                     cons.append((ZERO, n, -iv[0]))      # 0 - x <= -lo
                     cons.append((n, ZERO, iv[1]))       # x - 0 <= hi
+                if v[0] == "place" and v[1][1]:
+                    rb = self._range_item_bounds(v, block)
+                    if rb is not None:
+                        (sb_, so_), (eb_, eo_) = rb
+                        nodes.add(sb_); nodes.add(eb_)
+                        cons.append((n, eb_, eo_ - 1))      # item <= end - 1
+                        cons.append((sb_, n, -so_))         # start <= item
                 if v[0] == "place" and not v[1][1]:
                     inv = self._monotone_bound(v[1][0], block)
                     if inv is not None:
